@@ -30,14 +30,15 @@ mutual
 end
 
 /-- what the theorems need to know about one node of the tree (all true of `html.Parse` output):
-    * every element has a parent; the parent of an element is an element, or it is the Document node
-      and the element is `html` (the code's `:root` is "an `html` element whose parent is the Document");
+    * the parent of an element is an element, or it is the Document node and the element is `html`;
+      an element without parent (webrender detaches the root from its Document) is `html`
+      (the code's `:root` is "an `html` element whose parent is the Document or nothing");
     * a node that is neither element, text nor comment (Doctype, Document) has no element before it
       (`siblingMatch` skips only text and comment nodes when looking for the adjacent element). -/
 structure LocalOk (l : Loc) : Prop where
-  parent : l.kind = .elem → l.path ≠ []
   root : l.kind = .elem → ∀ p, l.parent? = some p →
     p.kind = .elem ∨ (p.kind = .doc ∧ l.data = htmlTag)
+  detached : l.kind = .elem → l.parent? = none → l.data = htmlTag
   other : ∀ pre s post, l.prevSibs = pre ++ s :: post → (s.kind = .other ∨ s.kind = .doc) →
     ∀ e ∈ post, e.kind ≠ .elem
 
